@@ -58,6 +58,11 @@ CHECKS = {
             "produced actions; agreement of the four builders on condition/fire_count/fire_period/id/payload; every key an "
             "action context reads is written by its builder; an uninterpretable tracepoint is skipped inside a per-item "
             "guard; metric/label definitions bind the matching protobuf fields.", "4/C11"),
+    "C12": ("tail-position / dominance rules of the poll path, who-may-write rule for hash and config, loop-guard and escape rules of the timer, ordering rule (serial executor | re-read under lock | version check), origin of the listener payload",
+            "Static decision for every response/fault sequence: the stored configuration changes only as the last effect of a fully "
+            "converted poll, hash and configuration are written together by one function, no-change writes only the timestamp, the "
+            "reported hash is the stored one, the timer loop survives failures; and, as the static stand-in for all interleavings of "
+            "the two workers, that updates are applied serially with the configuration re-read under a lock (latest wins).", "4/C12"),
     "C13": ("object-sensitive value-dependence analysis of the registration handle (freshness/injectivity), shape rules of add/remove, argument forwarding by origin expansion",
             "Static decision that the handle depends on a per-call fresh token (so equal arguments never give equal handles), that "
             "removal matches that same quantity, deletes at most one entry and is harmless when repeated, that registrations are "
